@@ -75,9 +75,11 @@ type Case struct {
 	Prelude int `json:"prelude,omitempty"`
 	// AgeMs: the tunnel is kept open (carrying a byte both ways now and then)
 	// for this long before the streams are written.
-	AgeMs    int    `json:"age_ms,omitempty"`
-	TwinSize int    `json:"twin_size,omitempty"`
-	TwinSeed uint64 `json:"twin_seed,omitempty"`
+	AgeMs int `json:"age_ms,omitempty"`
+	// TimeoutMs: the proxy's SetTimeout value (0 = 60 s, longer than any case).
+	TimeoutMs int    `json:"timeout_ms,omitempty"`
+	TwinSize  int    `json:"twin_size,omitempty"`
+	TwinSeed  uint64 `json:"twin_seed,omitempty"`
 }
 
 // runTwin drives the second tunnel and reports what it saw.
@@ -406,6 +408,9 @@ func runOnce(c Case, T time.Duration) (v kit.Verdict) {
 	}}
 	p := martian.NewProxy()
 	p.SetTimeout(60 * time.Second)
+	if c.TimeoutMs > 0 {
+		p.SetTimeout(time.Duration(c.TimeoutMs) * time.Millisecond)
+	}
 	p.SetDial(dialer.Dial)
 	if c.OpaqueDial {
 		p.SetDial(func(network, addr string) (net.Conn, error) {
@@ -861,6 +866,9 @@ func classes(c Case) []string {
 	}
 	if c.AgeMs > 0 {
 		out = append(out, "old-tunnel")
+		if c.TimeoutMs > 0 && c.AgeMs > c.TimeoutMs {
+			out = append(out, "busy-tunnel-older-than-the-proxy-timeout")
+		}
 	}
 	return out
 }
@@ -879,7 +887,7 @@ func TestTunnel(t *testing.T) {
 
 var propOld = &kit.Prop[Case]{
 	ID: "C04", Name: "old-tunnel",
-	Rule: "tunnels (direct and through the downstream proxy, plain and shaped listener) kept open and in use for longer than any set-up deadline (10.5 s quick, 31 s thorough) before the two streams are written and the tunnel is ended; non-trivial = always",
+	Rule: "tunnels (direct and through the downstream proxy, plain and shaped listener) kept open and in use for longer than any set-up deadline (10.5 s quick, 31 s thorough), or for 4.5 s under a proxy timeout of 3 s (a byte each way every 500 ms: never idle), before the two streams are written and the tunnel is ended; non-trivial = always",
 	Run:  run, NonTrivial: func(Case) bool { return true }, Classes: classes, Journal: true,
 }
 
@@ -892,6 +900,15 @@ func TestOldTunnel(t *testing.T) {
 			cases = append(cases, Case{
 				C2T: Stream{Size: 70000, Seed: 5, Writes: []int{4096}, Pause: []int{0}}, T2C: Stream{Size: 70000, Seed: 6, Writes: []int{4096}, Pause: []int{0}},
 				Early: "none", Closer: "client-half", Route: route, Shaped: shaped, AgeMs: age,
+			})
+		}
+	}
+	// in use for longer than the proxy's timeout, never idle for as long as that
+	for _, route := range []string{"direct", "downstream"} {
+		for _, shaped := range []bool{false, true} {
+			cases = append(cases, Case{
+				C2T: Stream{Size: 70000, Seed: 7, Writes: []int{4096}, Pause: []int{0}}, T2C: Stream{Size: 70000, Seed: 8, Writes: []int{4096}, Pause: []int{0}},
+				Early: "none", Closer: "target-half", Route: route, Shaped: shaped, AgeMs: 4500, TimeoutMs: 3000,
 			})
 		}
 	}
